@@ -75,8 +75,8 @@ def explore_trace_config(cfg: dict) -> dict:
 
     def run(c):
         names_, cells, s, tol_, min_iter_, offset_ = lf._symbolic_inputs(c)
-        start_vals = {n: cells[n][tc] for n in names_}
         m = lf._build_model(c, cells, s, dtype=object)
+        start_vals = {n: m.__dict__['_' + n][tc] for n in m.names}
         with lf.shimmed():
             out = lf._call_impl(m, c, min_iter=min_iter_, tol=tol_, offset=offset_)
         return m, out, start_vals
@@ -115,7 +115,9 @@ def explore_trace_config(cfg: dict) -> dict:
             if list(tr.names) != list(tnames):
                 bad.append(f'trace names {tr.names} != {tnames}')
             vals = tr.values
-            if vals.shape != (len(tnames), len(want_labels)):
+            if list(tr.names) != list(tnames):
+                pass    # reported above; the rows cannot be matched to names
+            elif vals.shape != (len(tnames), len(want_labels)):
                 bad.append(f'trace shape {vals.shape}')
             else:
                 # expected snapshot per label
@@ -253,6 +255,9 @@ def replay_trace_concrete(cfg: dict, inp: dict) -> dict:
         trace_arg = cfg['tracer']
         tnames = mT.names if trace_arg is True else ([trace_arg] if isinstance(trace_arg, str) else list(trace_arg))
         passes = _pass_of_column(st['log'])
+        if list(tr.names) != list(tnames):
+            bad.append(f'trace names {list(tr.names)} != {list(tnames)}')
+            return {'impl': lf._pub(oT), 'ref': lf._pub(oU), 'bad': bad}
         for col, lab in enumerate(want):
             if isinstance(lab, int) and lab >= 1:
                 snap = st['snaps'][passes[col]]
@@ -291,6 +296,13 @@ def configs(tier: str):
                                                               offset=offset, finite=False, faults=faults,
                                                               hook_faults=faults and B <= 1, entry=entry, tracer=tracer,
                                                               post_write=(tracer is True)))
+    # a variable added to the instance at run time is part of "all variables" (trace=True)
+    for errors, failures in (('raise', 'ignore'), ('skip', 'ignore')):
+        for B in (1, 2):
+            out.append(lf.default_cfg(N=1, B=B, errors=errors, failures=failures, t=1, offset='zero', finite=False, faults=False,
+                                      entry='solve_t', tracer=True, extra_var=True))
+            out.append(lf.default_cfg(N=1, B=B, errors=errors, failures=failures, t=1, offset='zero', finite=False, faults=False,
+                                      entry='solve_t', tracer=['Y0', 'Q'], extra_var=True))
     # the same period solved twice with tracing (reset=False): the trace keeps appending; solution unchanged
     for tracer in (True, ['Y0']):
         for errors, failures in (('raise', 'ignore'), ('ignore', 'ignore'), ('skip', 'ignore')):
